@@ -524,7 +524,7 @@ theorem c19_shape_monitor_bucket_stats_bucketRule_Match :
 
 theorem c19_shape_monitor_monitor_NewMonitor :
     Shapes.simul_monitor_monitor_NewMonitor =
-   ["newBucketStats"] := rfl
+   ["newBucketStats", "verifNewMonitor"] := rfl
 
 theorem c19_shape_monitor_monitor_Monitor_Listen :
     Shapes.simul_monitor_monitor_Monitor_Listen =
@@ -622,6 +622,28 @@ theorem c19_shape_monitor_measure_RecordSingleMeasure :
 theorem c19_shape_monitor_measure_newSingleMeasure :
     Shapes.simul_monitor_measure_newSingleMeasure =
    ["newSingleMeasureWithHost"] := rfl
+
+theorem c19_shape_build_RunTest :
+    Shapes.simul_build_RunTest =
+   ["CheckHosts", "rc.Delete", "rc.Map", "monitor.NewStats",
+     "assign:stats:=conv{monitor.NewStats(rc.Map(),\"\",\"\")}", "deployP.Cleanup",
+     "assign:err:=deployP.Cleanup()", "if:(err!=nil)", "return:nil,xerrors.Errorf(\"\",err)",
+     "deployP.Deploy", "assign:err:=deployP.Deploy(rc)", "if:(err!=nil)",
+     "return:nil,xerrors.Errorf(\"\",err)", "monitor.NewMonitor",
+     "assign:m:=monitor.NewMonitor(stats[0])", "uint16", "assign:m.SinkPort=uint16(monitorPort)",
+     "defer:m.Stop", "rc.GetBuckets", "assign:buckets,err:=rc.GetBuckets()", "if:(err!=nil)",
+     "if:(err!=platform.ErrorFieldNotPresent)", "return:nil,xerrors.Errorf(\"\",err)", "else",
+     "range:i,rules:=buckets{", "rc.Map", "monitor.NewStats",
+     "assign:bs:=monitor.NewStats(rc.Map(),\"\",\"\")", "assign:stats=append(stats,bs)",
+     "m.InsertBucket", "}", "assign:done:=make(conv)", "assign:monitorDone:=make(conv)", "go{",
+     "m.Listen", "assign:err:=m.Listen()", "if:(err!=nil)", "close:monitorDone", "}", "go{",
+     "deployP.Start", "assign:err:=deployP.Start()", "if:(err!=nil)", "send:done", "return:",
+     "deployP.Wait", "assign:err=deployP.Wait()", "if:(err!=nil)", "deployP.Cleanup",
+     "assign:err:=deployP.Cleanup()", "if:(err!=nil)", "send:done", "return:",
+     "recv:monitorDone", "send:done", "}", "getRunWait", "assign:timeout,err:=getRunWait(rc)",
+     "if:(err!=nil)", "recv:done", "assign:err:=<-done", "if:(err!=nil)",
+     "return:nil,xerrors.Errorf(\"\",err)", "return:stats,nil", "recv:After()", "time.After",
+     "return:nil,xerrors.New(\"\")"] := rfl
 
 
 end C19
